@@ -227,7 +227,28 @@ def clean_programs():
     ]
 
 
+def layout_texts():
+    """unusual layouts (eighth seeding round and its side remarks): string annotations that are not expressions,
+    continuation lines starting in column 0, a decorator shorter than `def`, non-ASCII names and strings"""
+    H = "from nada_dsl import *\n\ndef nada_main():\n    p = Party(name='P')\n    x = SecretInteger(Input(name='x', party=p))\n    y = PublicInteger(Input(name='y', party=p))\n"
+    T = "    return [Output(x, 'o', p)]\n"
+    out = []
+    for k, body in enumerate([
+            "    total: \"the sum, still secret\" = x + x\n", "    v: \"list[SecretInteger\" = []\n", "    n: \"\" = 3\n", "    m: \" int\" = 3\n",
+            "    q: \"SecretInteger\" = x\n", "    r: list[\"SecretInteger\"] = [x]\n", "    w: \"1/0\" = 1\n"]):
+        out.append((f"string-annotation-{k}", H + body + T))
+    out.append(("string-annotation-on-a-parameter", "from nada_dsl import *\n\ndef tally(votes: \"list of secret votes\") -> \" SecretInteger\":\n    return votes\n\n" + H.split("\n\n", 1)[1] + T))
+    for k, body in enumerate(["    z = (x\n+\ny)\n", "    z = (x < y\n).if_else(x, y)\n", "    b = (True and\nFalse)\n", "    z = (x +\n y)\n", "    z = [x,\ny]\n"]):
+        out.append((f"continuation-in-column-0-{k}", H + body + T))
+    out.append(("short-decorator", "from nada_dsl import *\n@f\ndef g(a: SecretInteger) -> SecretInteger:\n    return a\n"))
+    out.append(("short-decorator-in-main", H + "    @f\n    def g(a: SecretInteger) -> SecretInteger:\n        return a\n" + T))
+    for k, body in enumerate(["    zoe = Party(\"Zo\u00eb\")\n    age = SecretInteger(Input(\"\u00e2ge\", zoe))\n", "    bank = Party(name=\"Soci\u00e9t\u00e9 G\u00e9n\u00e9rale\")\n",
+                              "    \u5408\u8a08 = x + x\n    z = \u5408\u8a08 * y\n", "    s = \"\u5408\u8a08\" + str(1)\n    t = x + x\n"]):
+        out.append((f"non-ascii-{k}", H + body + T))
+    return out
+
+
 def all_texts(seed, tier):
     rng = random.Random(seed)
-    t = edge_texts() + clean_programs() + long_chain_texts() + hole_texts() + mutations(rng, 60 if tier == "quick" else 2000) + grammar_texts(rng, 100 if tier == "quick" else 4000)
+    t = edge_texts() + clean_programs() + layout_texts() + long_chain_texts() + hole_texts() + mutations(rng, 60 if tier == "quick" else 2000) + grammar_texts(rng, 100 if tier == "quick" else 4000)
     return t
